@@ -36,7 +36,8 @@ def run(ctx):
         "query: non-increasing counts, distinct keys, len <= k, n == hh[key] >= threshold (None -> independently computed "
         "uint32(phi*n_added)) and > 0, answer == first k of the unbounded answer of HeavyHitters.load(save()), candidate_set "
         "equal to that of the fresh copy, every added key with hh[key] >= max(thr,1) present, answer == the fresh copy's answer "
-        "to the same call. No exhaustive sub-space is claimed.")
+        "to the same call. No exhaustive sub-space is claimed. distinct = distinct (shape, program); non-trivial = two added keys share a cell, or a key and its "
+        "NUL-suffixed alias were both added, or two non-empty sketches were merged, or a cell mass reached 2^32-2.")
     ctx.assumptions += ["phi * n_added < 2^63 (beyond that the float -> uint32 cast is platform dependent)",
                         "thresholds passed explicitly are in [0, 2^32-1] (others raise OverflowError)",
                         "n_added_records does not wrap at 2^64; keys shorter than 2^64 bytes; multiplicities >= 0",
